@@ -110,14 +110,16 @@ def check_history(chk, case, res, resumed=False):
             chk.fail("stored population carries its temperature", case, f"population {t} has beta {pop['beta']} but the recorded one is {betas[t]}",
                      {**sig, "clause": "pop_beta"})
         r, v, e, e1 = ref_step(pop, betas[t], betas[t + 1])
-        scale = abs(betas[t + 1] - betas[t]) * float(np.max(np.abs(pop["ll"])) + 10) + 1
+        fin_ll = pop["ll"][np.isfinite(pop["ll"])]          # (zero-likelihood particles have log L = -inf: they do not set the scale)
+        top = float(np.max(np.abs(fin_ll))) if len(fin_ll) else 0.0
+        scale = abs(betas[t + 1] - betas[t]) * (top + 10) + 1
         if t < len(rec["ratio"]) and not core.close(rec["ratio"][t], r, 0, 1e-9 * scale):
             chk.fail("recorded ratio equals its definition", case, f"iteration {t + 1}: {rec['ratio'][t]!r} vs {r!r}", {**sig, "clause": "ratio"})
         if t < len(rec["ess"]) and not core.close(rec["ess"][t], e, 1e-7 * scale):
             chk.fail("recorded ESS equals its definition", case, f"iteration {t + 1}: {rec['ess'][t]!r} vs {e!r}", {**sig, "clause": "ess"})
         if t < len(rec["var"]) and not core.close(rec["var"][t], v, 1e-6 * scale, 1e-12):
             chk.fail("recorded variance equals its definition", case, f"iteration {t + 1}: {rec['var'][t]!r} vs {v!r}", {**sig, "clause": "var"})
-        if t < len(rec["ess_target"]) and not core.close(rec["ess_target"][t], e1, 1e-6 * max(scale, float(np.max(np.abs(pop['ll'])) + 1))):
+        if t < len(rec["ess_target"]) and not core.close(rec["ess_target"][t], e1, 1e-6 * max(scale, top + 1)):
             chk.fail("recorded target ESS equals its definition", case, f"iteration {t + 1}: {rec['ess_target'][t]!r} vs {e1!r}", {**sig, "clause": "ess_target"})
     te = full["target_efficiency"]
     for t in range(min(its, len(rec["eff_target"]))):
